@@ -731,7 +731,7 @@ def run(ctx):
         res[name] = ctx.coq(files, timeout=timeout)
     th = [threading.Thread(target=job, args=("laws", ["C11_laws.v"])),
           threading.Thread(target=job, args=("pmat", ["C11_pmat.v"])),
-          threading.Thread(target=job, args=("lazy", ["C11_lazy.v", "C11_rot.v"]))]
+          threading.Thread(target=job, args=("lazy", ["C11_lazy.v"]))]
     for t in th:
         t.start()
     for t in th:
@@ -739,7 +739,8 @@ def run(ctx):
     if res["pmat"].ok:
         th = [threading.Thread(target=job, args=("norm", ["C11_pmat_norm.v"])),
               threading.Thread(target=job, args=("aniso", ["C11_aniso.v"])),
-              threading.Thread(target=job, args=("aniso3d", ["C11_aniso3d.v"]))]
+              threading.Thread(target=job, args=("aniso3d", ["C11_aniso3d.v"])),
+              threading.Thread(target=job, args=("rot", ["C11_rot.v"]))]
         for t in th:
             t.start()
         for t in th:
@@ -774,7 +775,7 @@ def run(ctx):
     # ---- correspondence (+ property predicates on the implementation's outputs = the search)
     viol = correspondence(ctx, lw, pm)
     # ---- other broken proofs: report (the predicates above give the failing input if the property is violated)
-    for name in ("laws", "pmat", "lazy", "aniso"):
+    for name in ("laws", "pmat", "lazy", "aniso", "rot"):
         r = res.get(name)
         if r is not None and not r.ok:
             ctx.violation("proof-broken:%s" % r.failed_file,
